@@ -246,7 +246,7 @@ open P2sh.Core
 theorem patTest_range_int (incl : Bool) (v lo hi : Int64) :
     patTest (.int v) (.range incl (.int lo) (.int hi)) = some (rangeTest incl (.int v) (.int lo) (.int hi)) := by
   cases incl <;>
-    simp [patTest, execOperator, binaryOp, isNumKind, applyBin, rangeTest, Val.isFalsey] <;>
+    simp [patTest, execOperator, binaryOp, isNumKind, isByteVal, applyBin, rangeTest, Val.isFalsey] <;>
     cases (Val.int v).ge (Val.int lo) <;> simp
 
 /-- `a..b` as a pattern: matches exactly the integers `a ≤ v < b` -/
